@@ -54,6 +54,8 @@ func init() {
 	gwReg("c14h", gw.RunC14HTTP)
 	register("gw", "smoke", true, func(t *testing.T, r *sim.Run) { gw.PreBubble(); inBubble(t, true, func() { gw.RunSmoke(r) }) })
 	register("rl", "c07", true, func(t *testing.T, r *sim.Run) { inBubble(t, true, func() { rl.RunC07(r) }) })
+	register("rl", "c09i", true, func(t *testing.T, r *sim.Run) { inBubble(t, true, func() { rl.RunC09I(r) }) })
+	register("rl", "c19h", true, func(t *testing.T, r *sim.Run) { inBubble(t, true, func() { rl.RunC19H(r) }) })
 	register("rl", "c16l", true, func(t *testing.T, r *sim.Run) { inBubble(t, true, func() { rl.RunC16L(r) }) })
 	register("rl", "c08tb", true, func(t *testing.T, r *sim.Run) { inBubble(t, true, func() { rl.RunC08TB(r) }) })
 	register("rl", "c07o", true, func(t *testing.T, r *sim.Run) { inBubble(t, true, func() { rl.RunC07Overlap(r) }) })
@@ -61,5 +63,6 @@ func init() {
 	register("rl", "c18", true, func(t *testing.T, r *sim.Run) { inBubble(t, true, func() { rl.RunC18(r) }) })
 	register("rlstub", "c09", true, func(t *testing.T, r *sim.Run) { inBubble(t, true, func() { rl.RunC09(r) }) })
 	register("store", "c19", true, func(t *testing.T, r *sim.Run) { inBubble(t, true, func() { store.RunC19(r) }) })
+	register("tb", "c06i", false, func(t *testing.T, r *sim.Run) { inBubble(t, false, func() { tb.RunC06I(r) }) })
 	register("tb", "c06", false, func(t *testing.T, r *sim.Run) { inBubble(t, false, func() { tb.RunC06(r) }) })
 }
